@@ -63,7 +63,7 @@ OneLeaf == Leaf("term", {"field"})
 SomeBools ==
   IF Thorough
   THEN {Bool(m, s, <<>>, f, {}) : m \in {<<>>} \cup {<<x>> : x \in SmallConj},
-                                  s \in {<<x>> : x \in SmallDisj}, f \in {<<>>} \cup {<<l>> : l \in LeavesB}}
+                                  s \in {<<x>> : x \in SmallDisj}, f \in {<<>>, <<OneLeaf>>}}
   ELSE {Bool(m, s, <<>>, f, {}) : m \in {<<>>, <<Conj(<<OneLeaf>>, {})>>},
                                   s \in {<<Disj(<<OneLeaf>>, {}, 0)>>, <<Disj(<<OneLeaf, OneLeaf>>, {}, 1)>>},
                                   f \in {<<>>, <<OneLeaf>>}}
